@@ -20,6 +20,7 @@ TAGS = {
     "read-set": {"C05"},
     "perm-flag": {"C03", "C08"},
     "rule-consistency": {"C11", "C01"},
+    "type-sound": {"C09", "C19"},
 }
 
 
